@@ -52,6 +52,10 @@ CHECKS = {
     text="Token: AndroidYowsupEnv.getToken executed with SHA-1 as an uninterpreted incremental hash and the phone an abstract string of symbolic length 0..64: the result term equals b64(SHA1(opad||SHA1(ipad||sig||classes||phone))) built independently. Encoding: WARequest.urlencode/urlencodeParams on symbolic characters over all Unicode code points (UTF-8 length classes), bytes, ints, parameter lists <=3, equal to the independent reference encoder; exhaustive concrete single-code-point sweep with the real urllib. Encryption: encryptParams with X25519/AES-GCM/base64 as uninterpreted terms (DH commutativity): the server side decrypts to exactly the encoded parameter string, fresh ephemeral key per call. Every witness replayed with real hashlib/hmac, cryptography, python-axolotl.",
     note="Trusted: models of sha1/X25519/AES-GCM/base64/urllib.quote (quote validated by the sweep); primitives themselves are outside. Strings longer than the bound rest on the encoder being per-character.",
     technique="symbolic execution with hashes/ciphers as uninterpreted functions and characters as z3 integers; differential concrete replay against independent references"),
+ "C14": dict(cat="model_checking", design="4/C14",
+    text="Kernel: AxolotlControlLayer.adjustId executed on a symbolic id over [0,2^32): z3 proves the bytes are the big-endian value, 3 bytes below 2^24 and 4 above. Histories: real AxolotlControlLayer + real AxolotlManager + real sqlite store + real key generation (batch 3, refill threshold 2) inside the lifecycle stack; the solver enumerates every history of <=6 (7 after a login prefix; thorough 8/9) events over connect, success, server key-count request, upload result, upload error, connection loss, restart; after each step a ghost set of confirmed ids is checked: no confirmed id offered again, unconfirmed ids offered at the next authenticated login, offered ids map to locally stored keys with the stored public key, 3-byte ids / 32-byte keys, identity, registration id and a signed prekey whose signature verifies (real Curve.verifySignature).",
+    note="Trusted: python-axolotl key generation and signature verification (real, concrete), sqlite; small batch constants stand for 812/10. Consumption by an incoming first message is outside (C03/C17).",
+    technique="symbolic execution of the id encoding (z3, digit decomposition) + solver-driven bounded model checking of upload histories on the real layer/manager/store; concrete replay"),
  "C15": dict(cat="model_checking", design="4/C15",
     text="Symbolic execution of the real mediacipher module with HKDF / AES-CBC / HMAC as uninterpreted terms (dec(enc(x))=x) and PKCS7 modelled exactly; the plaintext length L is a solver variable (0..80 quick, 0..4096 thorough; contents and key abstract). Obligations: decrypt(encrypt(p)) == p for every L and kind; the ciphertext term equals the independent reference layout (HKDF iv/key/mac key, always-padded CBC, 10-byte MAC over iv+ct); a flip at any symbolic position of ciphertext or tag, truncation, wrong key or wrong kind raises. Every model is replayed with the real cryptography library and compared byte for byte with ref/mediacipher_ref.py (own HKDF); the repository's fixture vector is checked against both.",
     note="Trusted: crypto models (ideal-primitive assumption for tamper detection: different MAC inputs give different MACs), PKCS7 model, z3; the real primitives are only exercised on the solver's witnesses and (thorough) every length 0..80.",
